@@ -4,6 +4,7 @@ import PhononModel.Lemmas.DesignRank
 import PhononModel.Lemmas.FDStaged
 import PhononModel.Lemmas.FDLit
 import PhononModel.Lemmas.FDLitStaged
+import PhononModel.Lemmas.SymBook
 import Mathlib.Tactic.NormNum
 /-!
 # C01 — the finite-displacement solver recovers exactly harmonic force constants
@@ -348,6 +349,97 @@ theorem runDirectLitT_eq {M n nrot : Nat} (atomList : Fin M → Fin n) (R : Fin 
     (runDirectLitT atomList R perms data).map Tab4.read = runDirectLit atomList R perms data :=
   runDirectLitT_spec atomList R perms data
 
+/-! ## `Symmetry` bookkeeping the solver relies on (certificate form where spglib is involved) -/
+
+section symmetry
+
+/-- independent atoms are exactly the fixed points of `map_atoms`, without repetition -/
+theorem independent_atoms_spec {n : Nat} (m : Fin n → Fin n) :
+    (∀ a, a ∈ independentAtoms m ↔ m a = a) ∧ (independentAtoms m).Nodup :=
+  ⟨fun _ => mem_independentAtoms, independentAtoms_nodup m⟩
+
+/-- for tables passing `equivCert`: the independent atoms are orbit representatives — every atom is sent to an
+independent atom (its `map_atoms` entry) by some listed operation, `map_operations` finds such an operation, and no
+two different independent atoms are related by a listed operation. -/
+theorem independent_atoms_are_representatives {n nrot : Nat} (perms : Fin nrot → Fin n → Fin n) (m : Fin n → Fin n)
+    (h : equivCert perms m = true) :
+    (∀ i, m i ∈ independentAtoms m ∧ ∃ g, mapOperation perms m i = some g ∧ perms g i = m i) ∧
+    (∀ a ∈ independentAtoms m, ∀ g, perms g a ∈ independentAtoms m → perms g a = a) :=
+  ⟨fun i => ⟨rep_mem_independent h i, mapOperation_spec h i⟩, fun a ha g hb => independent_inequivalent h a ha g hb⟩
+
+/-- `get_site_symmetry(a)` (as selected from the permutation table) is exactly the stabiliser of `a` in the
+operation list, in list order, each operation once … -/
+theorem site_symmetry_is_stabiliser {n nrot : Nat} (rots : Fin nrot → M3) (perms : Fin nrot → Fin n → Fin n) (a : Fin n) :
+    (∀ g, g ∈ siteOps perms a ↔ perms g a = a) ∧ (siteOps perms a).Nodup ∧
+    (∀ r, r ∈ siteSymmetry rots perms a ↔ ∃ g, perms g a = a ∧ rots g = r) :=
+  ⟨fun _ => mem_siteOps, siteOps_nodup perms a, fun _ => mem_siteSymmetry⟩
+
+/-- … and contains the identity whenever the operation list does. -/
+theorem site_symmetry_contains_identity {n nrot : Nat} (rots : Fin nrot → M3) (perms : Fin nrot → Fin n → Fin n)
+    (h : identityCert rots perms = true) (a : Fin n) : M3.one ∈ siteSymmetry rots perms a :=
+  identity_mem_siteSymmetry h a
+
+/-- `get_least_displacements(symmetry, …)` on the whole crystal: succeeds, and for every independent atom the rows
+carrying its number are, in order, the directions of (1) for its site symmetry — whose images have rank 3.
+(`_get_force_constants_disps` regroups the data set by exactly this filter.) -/
+theorem generate_directions_sufficient {n nrot : Nat} (rots : Fin nrot → M3) (perms : Fin nrot → Fin n → Fin n)
+    (m : Fin n → Fin n) (hid : identityCert rots perms = true) (o : Options) :
+    ∃ out, generateDirections rots perms m o = some out ∧ (∀ p ∈ out, p.1 ∈ independentAtoms m) ∧
+      ∀ a ∈ independentAtoms m, ∃ L, leastDisplacements (siteSymmetry rots perms a) o = some L ∧
+        (out.filter (fun p => p.1 = a)).map (·.2) = L ∧ Rank3 (images (siteSymmetry rots perms a) L) := by
+  have hex := fun a => disp_sufficient (siteSymmetry rots perms a) (identity_mem_siteSymmetry hid a) o
+  obtain ⟨out, hout, hmem, hfil⟩ := go_spec rots perms o (fun a => Classical.choose (hex a)) (independentAtoms m)
+    (independentAtoms_nodup m) (fun a _ => (Classical.choose_spec (hex a)).1)
+  exact ⟨out, hout, hmem, fun a ha => ⟨_, (Classical.choose_spec (hex a)).1, hfil a ha, (Classical.choose_spec (hex a)).2⟩⟩
+
+end symmetry
+
+section dataset
+variable {F : Type} [Field F] [LinearOrder F] [IsStrictOrderedRing F]
+
+/-- (3) **rank statement for the ACTUAL data-set vectors**: `directions_to_displacement_dataset` turns direction `d`
+into `d·lattice · distance/‖d·lattice‖`; for every non-singular lattice, non-zero distance and any `norm` with
+`norm² = |d·lattice|²` the scale is well defined and non-zero, and the Cartesian design matrix built from these very
+vectors and the similarity-transformed site operations has `det(UᵀU) ≠ 0` — the rank statement of (1) is invariant
+under the change of basis and the scaling. -/
+theorem dataset_design_full_rank (S : List M3) (hI : M3.one ∈ S) (o : Options) :
+    ∃ L, leastDisplacements S o = some L ∧
+      ∀ (lattice : Mat3 F), (ofMat lattice).det ≠ 0 → ∀ (distance : F), distance ≠ 0 →
+      ∀ (norms : Fin L.length → F),
+        (∀ k, norms k * norms k = ∑ j, dispCartesian lattice (L.get k) j * dispCartesian lattice (L.get k) j) →
+      ∀ (Rc : Fin S.length → Mat3 F), (∀ s, ofMat (Rc s) * (ofMat lattice)ᵀ = (ofMat lattice)ᵀ * castM (S.get s)) →
+        (∀ k, norms k ≠ 0) ∧
+        FD.det3 (gram (rotDisps Rc (fun k => datasetVector lattice distance (norms k) (L.get k)))) ≠ 0 := by
+  obtain ⟨L, hL, hfull⟩ := design_never_underdetermined (F := F) S hI o
+  refine ⟨L, hL, ?_⟩
+  intro lattice hdet distance hdist norms hnorm Rc hsim
+  have hn : ∀ k, norms k ≠ 0 := fun k =>
+    norm_ne_zero lattice hdet (leastDisplacements_ne_zero hL _ (List.get_mem L k)) (norms k) (hnorm k)
+  refine ⟨hn, ?_⟩
+  refine hfull (ofMat lattice)ᵀ (by rwa [Matrix.det_transpose]) Rc hsim (fun k => distance / norms k)
+    (fun k => div_ne_zero hdist (hn k)) _ (fun k => ?_)
+  funext j
+  simp only [datasetVector, dispCartesian_eq, Pi.smul_apply, smul_eq_mul]
+  ring
+
+end dataset
+
+/-- (6″) the pipeline with the `Symmetry` bookkeeping modelled: the displaced atoms are the independent atoms of a
+`map_atoms` table passing `equivCert` — "enough displaced atoms" and "done atoms pairwise inequivalent" are then
+theorems, not hypotheses. -/
+theorem fd_pipeline_exact_symmetry {M n nrot : Nat} (Φ : FC n K) (atomList : Fin M → Fin n)
+    (hinjA : Function.Injective atomList) (R : Fin nrot → Mat3 K) (perms : Fin nrot → Fin n → Fin n)
+    (m : Fin n → Fin n) (hm : equivCert perms m = true)
+    (data : List (AtomData n K)) (hatoms : data.map (·.atom) = independentAtoms m)
+    (hR : ∀ g, Orthogonal (R g)) (hinv : Invariant Φ perms R) (hperm : PermSym Φ)
+    (hF : ∀ D ∈ data, HarmonicForces Φ D)
+    (hsite : ∀ D ∈ data, SiteConsistent R perms D)
+    (hrank : ∀ D ∈ data, FD.det3 (gram (rotDisps D.R D.u)) ≠ 0)
+    (hrow : ∀ D ∈ data, ∃ r, atomList r = D.atom) :
+    runDirect atomList R perms data = some (fun r => Φ (atomList r)) :=
+  fd_pipeline_exact Φ atomList hinjA R perms data hR hinv hperm hF hsite hrank hrow
+    (hatoms ▸ doneCert_independent hm) (fun a => hatoms ▸ independent_cover hm a)
+
 /-! ## the property, with the displacements phonopy itself generated (no rank hypothesis left) -/
 
 section generated
@@ -503,6 +595,13 @@ end PhononModel.C01
 #print axioms PhononModel.C01.runDirectLit_eq_runDirect
 #print axioms PhononModel.C01.fd_pipeline_exact_literal
 #print axioms PhononModel.C01.runDirectLitT_eq
+#print axioms PhononModel.C01.independent_atoms_spec
+#print axioms PhononModel.C01.independent_atoms_are_representatives
+#print axioms PhononModel.C01.site_symmetry_is_stabiliser
+#print axioms PhononModel.C01.site_symmetry_contains_identity
+#print axioms PhononModel.C01.generate_directions_sufficient
+#print axioms PhononModel.C01.dataset_design_full_rank
+#print axioms PhononModel.C01.fd_pipeline_exact_symmetry
 #print axioms PhononModel.C01.generated_design_full_rank
 #print axioms PhononModel.C01.fd_pipeline_exact_generated
 #print axioms PhononModel.C01.solveRowsT_eq
